@@ -1,4 +1,4 @@
-import Pycoin.Model.Der
+import Pycoin.Proofs.Der
 import Pycoin.Model.PyErr
 import Pycoin.Model.Wif
 import Pycoin.Gen.Curves
@@ -16,5 +16,180 @@ theorem C10_network_generator :
     (genB : Int) = Gen.Curves.secp256k1.b ∧ genOrder = Gen.Curves.secp256k1.n ∧
     (genGx : Int) = Gen.Curves.secp256k1.gx ∧ (genGy : Int) = Gen.Curves.secp256k1.gy := by
   decide +kernel
+
+/-! ## DER (`pycoin/satoshi/der.py`) -/
+section der
+open Pycoin.Der
+
+/-- C10.der_rt — `sigdecode_der(sigencode_der(r, s)) = (r, s)` in both modes, for all `r, s ≥ 0` (short and long
+form lengths alike).  The bound "shorter than 2^64 bytes" is beyond any addressable memory; it keeps every length
+field below the 127 length bytes DER can express. -/
+theorem C10_der_rt (r s : Int) (hr : 0 ≤ r) (hs : 0 ≤ s)
+    (hrs : byteLen r.toNat < 2 ^ 64) (hss : byteLen s.toNat < 2 ^ 64) (broken : Bool) :
+    ∃ blob, sigencodeDer r s = .ok blob ∧ sigdecodeDer blob broken = .ok (r, s) := by
+  obtain ⟨er, her, hler⟩ := encodeInteger_ok r hr hrs
+  obtain ⟨es, hes, hles⟩ := encodeInteger_ok s hs hss
+  have h66 : (2 : Nat) ^ 65 + 2 ^ 65 < 2 ^ 70 := by decide
+  have h64 : (2 : Nat) ^ 64 + 2 < 2 ^ 70 := by decide
+  have htot : (er ++ es).length < 2 ^ 70 := by simp; omega
+  obtain ⟨l, hl, -⟩ := encodeLength_ok htot
+  have hsmall : ∀ (v : Int), byteLen v.toNat < 2 ^ 64 →
+      ∀ n, n ≤ (hexBytes v.toNat).length + 1 → (hexBytes n).length < 128 := by
+    intro v hv n hn
+    apply hexBytes_small
+    have : (hexBytes v.toNat).length < 2 ^ 64 + 1 := by rw [hexBytes_length]; split <;> omega
+    omega
+  have henc : sigencodeDer r s = .ok ((0x30 : UInt8) :: (l ++ (er ++ es)) ++ []) := by
+    have hsum : ([er, es].map List.length).sum = (er ++ es).length := by simp
+    simp only [sigencodeDer, her, hes, encodeSequence, hsum, hl]
+    simp
+  refine ⟨_, henc, ?_⟩
+  unfold sigdecodeDer
+  rw [removeSequence_encode (er ++ es) l [] hl (hexBytes_small htot)]
+  simp only [ne_eq, not_true_eq_false, false_and, if_false]
+  rw [removeInteger_encodeInteger r hr er es broken her (hsmall r hrs)]
+  simp only
+  have : removeInteger es broken = .ok (s, []) := by
+    have := removeInteger_encodeInteger s hs es [] broken hes (hsmall s hss)
+    simpa using this
+  rw [this]
+  simp
+
+/-- C10.der_strict_trailing — what strict decoding accepts: the sequence ends the input and the second integer
+ends the sequence.  (`remove_sequence` returns as remainder everything after the announced length.) -/
+theorem C10_der_strict_trailing (sig : Bytes) (r s : Int) (h : sigdecodeDer sig false = .ok (r, s)) :
+    ∃ content rest, removeSequence sig = .ok (content, []) ∧ removeInteger content false = .ok (r, rest) ∧
+      removeInteger rest false = .ok (s, []) := by
+  unfold sigdecodeDer at h
+  split at h
+  · cases h
+  · rename_i content remainder hseq
+    split at h
+    · cases h
+    · rename_i hrem
+      split at h
+      · cases h
+      · rename_i r' rest hr
+        split at h
+        · cases h
+        · rename_i s' remainder' hs
+          split at h
+          · cases h
+          · rename_i hrem'
+            injection h with h
+            injection h with h1 h2
+            subst h1; subst h2
+            have e1 : remainder = [] := by simpa using hrem
+            have e2 : remainder' = [] := by simpa using hrem'
+            subst e1; subst e2
+            exact ⟨content, rest, hseq, hr, hs⟩
+
+/-- strict decoding refuses bytes after the sequence; the non-strict mode ignores them (as coded) -/
+theorem C10_der_strict_trailing_after_sequence (r s : Int) (hr : 0 ≤ r) (hs : 0 ≤ s)
+    (hrs : byteLen r.toNat < 2 ^ 64) (hss : byteLen s.toNat < 2 ^ 64) (blob t : Bytes) (ht : t ≠ [])
+    (h : sigencodeDer r s = .ok blob) :
+    sigdecodeDer (blob ++ t) false = .error .unexpectedDER ∧ sigdecodeDer (blob ++ t) true = .ok (r, s) := by
+  obtain ⟨er, her, hler⟩ := encodeInteger_ok r hr hrs
+  obtain ⟨es, hes, hles⟩ := encodeInteger_ok s hs hss
+  have h66 : (2 : Nat) ^ 65 + 2 ^ 65 < 2 ^ 70 := by decide
+  have h64 : (2 : Nat) ^ 64 + 2 < 2 ^ 70 := by decide
+  have htot : (er ++ es).length < 2 ^ 70 := by simp; omega
+  obtain ⟨l, hl, -⟩ := encodeLength_ok htot
+  have hsmall : ∀ (v : Int), byteLen v.toNat < 2 ^ 64 →
+      ∀ n, n ≤ (hexBytes v.toNat).length + 1 → (hexBytes n).length < 128 := by
+    intro v hv n hn
+    apply hexBytes_small
+    have : (hexBytes v.toNat).length < 2 ^ 64 + 1 := by rw [hexBytes_length]; split <;> omega
+    omega
+  have henc : sigencodeDer r s = .ok ((0x30 : UInt8) :: (l ++ (er ++ es))) := by
+    have hsum : ([er, es].map List.length).sum = (er ++ es).length := by simp
+    simp only [sigencodeDer, her, hes, encodeSequence, hsum, hl]
+    simp
+  rw [henc] at h
+  injection h with h
+  subst h
+  have hseq := removeSequence_encode (er ++ es) l t hl (hexBytes_small htot)
+  constructor
+  · unfold sigdecodeDer
+    rw [hseq]
+    simp [ht]
+  · unfold sigdecodeDer
+    rw [hseq]
+    simp only [ne_eq, not_true_eq_false, and_false, if_false]
+    rw [removeInteger_encodeInteger r hr er es true her (hsmall r hrs)]
+    simp only
+    have : removeInteger es true = .ok (s, []) := by
+      have := removeInteger_encodeInteger s hs es [] true hes (hsmall s hss)
+      simpa using this
+    rw [this]
+
+/-- strict decoding refuses bytes after the second integer inside a sequence whose length covers them -/
+theorem C10_der_strict_trailing_after_integers (r s : Int) (hr : 0 ≤ r) (hs : 0 ≤ s)
+    (hrs : byteLen r.toNat < 2 ^ 64) (hss : byteLen s.toNat < 2 ^ 64) (er es l t : Bytes) (ht : t ≠ [])
+    (her : encodeInteger r = .ok er) (hes : encodeInteger s = .ok es) (htl : t.length < 2 ^ 64)
+    (hl : encodeLength (er ++ es ++ t).length = .ok l) :
+    sigdecodeDer ((0x30 : UInt8) :: (l ++ (er ++ es ++ t))) false = .error .unexpectedDER ∧
+    sigdecodeDer ((0x30 : UInt8) :: (l ++ (er ++ es ++ t))) true = .ok (r, s) := by
+  obtain ⟨er', her', hler⟩ := encodeInteger_ok r hr hrs
+  obtain ⟨es', hes', hles⟩ := encodeInteger_ok s hs hss
+  rw [her] at her'; injection her' with e1; subst e1
+  rw [hes] at hes'; injection hes' with e2; subst e2
+  have h66 : (2 : Nat) ^ 65 + 2 ^ 65 + 2 ^ 64 < 2 ^ 70 := by decide
+  have h64 : (2 : Nat) ^ 64 + 2 < 2 ^ 70 := by decide
+  have htot : (er ++ es ++ t).length < 2 ^ 70 := by simp; omega
+  have hsmall : ∀ (v : Int), byteLen v.toNat < 2 ^ 64 →
+      ∀ n, n ≤ (hexBytes v.toNat).length + 1 → (hexBytes n).length < 128 := by
+    intro v hv n hn
+    apply hexBytes_small
+    have : (hexBytes v.toNat).length < 2 ^ 64 + 1 := by rw [hexBytes_length]; split <;> omega
+    omega
+  have hseq := removeSequence_encode (er ++ es ++ t) l [] hl (hexBytes_small htot)
+  simp only [List.append_nil] at hseq
+  have h1 : ∀ b, removeInteger (er ++ es ++ t) b = .ok (r, es ++ t) := by
+    intro b
+    have := removeInteger_encodeInteger r hr er (es ++ t) b her (hsmall r hrs)
+    simpa using this
+  have h2 : ∀ b, removeInteger (es ++ t) b = .ok (s, t) :=
+    fun b => removeInteger_encodeInteger s hs es t b hes (hsmall s hss)
+  constructor
+  · unfold sigdecodeDer
+    rw [hseq]
+    simp only [ne_eq, not_true_eq_false, false_and, if_false, h1, h2]
+    simp [ht]
+  · unfold sigdecodeDer
+    rw [hseq]
+    simp only [ne_eq, not_true_eq_false, and_false, if_false, h1, h2]
+
+/-- C10.der_minimal — `encode_integer` writes the shortest big-endian form of `r` (no leading zero byte unless
+`r = 0`), preceded by one `00` exactly when its top bit is set -/
+theorem C10_der_minimal (r : Int) (hr : 0 ≤ r) (e : Bytes) (h : encodeInteger r = .ok e) :
+    ∃ l c t, hexBytes r.toNat = c :: t ∧ (r ≠ 0 → c ≠ 0) ∧ beNat (c :: t) = r.toNat ∧
+      e = 0x02 :: (l ++ (if 128 ≤ c.toNat then 0 :: c :: t else c :: t)) ∧
+      encodeLength (if 128 ≤ c.toNat then t.length + 2 else t.length + 1) = .ok l := by
+  obtain ⟨l, b, body, he, hl, hb, hv, hform⟩ := encodeInteger_shape r hr e h
+  have hmin : ∀ c t, hexBytes r.toNat = c :: t → r ≠ 0 → c ≠ 0 := by
+    intro c t hct hr0
+    obtain ⟨b', rest', h1, h2⟩ := hexBytes_head_ne_zero (n := r.toNat) (by omega)
+    rw [hct] at h1
+    injection h1 with h1 _
+    rw [h1]; exact h2
+  rcases hform with h1 | ⟨h0, h2, c, t, h3, h4⟩
+  · refine ⟨l, b, body, h1.symm, hmin b body h1.symm, ?_, ?_, ?_⟩
+    · rw [h1, beNat_hexBytes]
+    · have : ¬ (128 ≤ b.toNat) := by omega
+      simp [this, he]
+    · have : ¬ (128 ≤ b.toNat) := by omega
+      simpa [this] using hl
+  · subst h0
+    refine ⟨l, c, t, by rw [← h2, h3], hmin c t (by rw [← h2, h3]), ?_, ?_, ?_⟩
+    · rw [← h3, h2, beNat_hexBytes]
+    · simp [h4, he, h3]
+    · simpa [h4, h3] using hl
+
+#guard sigencodeDer 1 128 matches .ok [0x30, 0x07, 0x02, 0x01, 0x01, 0x02, 0x02, 0x00, 0x80]
+#guard sigdecodeDer [0x30, 0x07, 0x02, 0x01, 0x01, 0x02, 0x02, 0x00, 0x80, 0x00] false matches .error .unexpectedDER
+#guard sigdecodeDer [0x30, 0x07, 0x02, 0x01, 0x01, 0x02, 0x02, 0x00, 0x80] false matches .ok (1, 128)
+
+end der
 
 end Pycoin.C10
